@@ -16,7 +16,6 @@ from typing import Any
 
 import numpy as np
 from multimethod import multimethod
-from scipy.linalg import sqrtm
 
 from lightworks.sdk.state import State
 
@@ -43,7 +42,7 @@ def state_fidelity(rho: np.ndarray, rho_exp: np.ndarray) -> float:
 
     """
     rho_exp = np.array(rho_exp)
-    rho_root = sqrtm(np.array(rho))
+    rho_root = _sqrtm_psd(np.array(rho))
     if rho_root.shape != rho_exp.shape:
         msg = (
             "Mismatch in dimensions between provided density matrices, "
@@ -51,7 +50,20 @@ def state_fidelity(rho: np.ndarray, rho_exp: np.ndarray) -> float:
         )
         raise ValueError(msg)
     inner = rho_root @ rho_exp @ rho_root
-    return abs(np.trace(sqrtm(inner)))
+    return abs(np.trace(_sqrtm_psd(inner)))
+
+
+def _sqrtm_psd(mat: np.ndarray) -> np.ndarray:
+    """
+    Square root of a positive semi-definite matrix through its eigenvalue
+    decomposition. The general purpose scipy.linalg.sqrtm is not reliable for
+    singular matrices, which every pure state (and the choi matrix of every
+    unitary) is, and can return nan for them.
+    """
+    mat = np.array(mat, dtype=complex)
+    vals, vecs = np.linalg.eigh((mat + mat.conj().T) / 2)
+    vals = np.clip(vals, 0, None)
+    return (vecs * np.sqrt(vals)) @ vecs.conj().T
 
 
 def process_fidelity(choi: np.ndarray, choi_exp: np.ndarray) -> float:
